@@ -10,7 +10,8 @@ BOUND = [0, 1, -1, 2, 3, 7, 10, 2**31, 2**31 - 1, 2**63 - 1, -(2**63), 2**32, 12
 RULE = ("every string of length <= 5 (thorough 6) over `0 1 9 . + - * / ^ ( ) blank` through tools::is_arithmetic and core::run_calculator "
         "in-process (classification rule and crash freedom), random expression trees of depth <= 5 over boundary operands (0, +-1, 2^31, "
         "2^63-1, exponents 0..70) rendered with minimal parentheses, random redundant ones and random spacing, implementation vs Lean model "
-        "vs the Lean reference evaluator; lines through the run_pipeline head and the real binary. "
+        "vs the Lean reference evaluator; the same shapes with decimal literals (also only inside parentheses) for the integer / floating-point "
+        "mode decision; lines through the run_pipeline head and the real binary. "
         "non-trivial = distinct trees with >= 2 operators, or strings the classifier accepts")
 
 
@@ -28,6 +29,15 @@ def rand_tree(r, depth):
     return (op, l, rt)
 
 
+def floatify(t, r):
+    """replace some integer leaves by decimal literals (kept as strings so that render prints them verbatim)"""
+    if not isinstance(t, tuple):
+        if isinstance(t, int) and r.chance(1, 3):
+            return r.choice(["1.5", "0.5", "2.0", "3.", "10.25", ".5"]) if t >= 0 else t
+        return t
+    return (t[0], floatify(t[1], r), floatify(t[2], r))
+
+
 def prefix(t):
     if isinstance(t, int):
         return str(t)
@@ -36,9 +46,9 @@ def prefix(t):
 
 def render(t, r, parent=None, side=None):
     sp = lambda: " " * r.below(3) if r.chance(1, 2) else ""
-    if isinstance(t, int):
+    if not isinstance(t, tuple):
         s = str(t)
-        if r.chance(1, 10):
+        if r.chance(1, 10) or (isinstance(t, str) and r.chance(1, 2)):
             s = "(" + sp() + s + sp() + ")"
         return s
     op, l, rt = t
@@ -56,7 +66,7 @@ def render(t, r, parent=None, side=None):
 
 
 def nops(t):
-    return 0 if isinstance(t, int) else 1 + nops(t[1]) + nops(t[2])
+    return 0 if not isinstance(t, tuple) else 1 + nops(t[1]) + nops(t[2])
 
 
 def generate(tier, rng):
@@ -74,6 +84,13 @@ def generate(tier, rng):
         if isinstance(t, int):
             continue
         cases.append(Case("calc", [hx(text), "c19", prefix(t)], {"gen": "g", "ops": nops(t), "t": prefix(t)}))
+        if r.chance(1, 5):
+            # float mode: the same shape with one or more decimal literals, anywhere (also only inside parentheses); the value is
+            # not compared (IEEE), the MODE is: a line with a `.` is evaluated in floating point
+            ft = floatify(t, r)
+            ftext = render(ft, r)
+            if "." in ftext:
+                cases.append(Case("calc", [hx(ftext)], {"gen": "gf", "ops": nops(t), "t": "float " + ftext}))
         if r.chance(1, 10):
             cases.append(Case("head", [gens.EMPTY_ENV, hx(text)], {"gen": "g"}))
             cases.append(Case("tok", [hx(text)], {"gen": "g"}))
